@@ -20,8 +20,9 @@ type Effect struct {
 	Chain  []string // call chain from the queried entry point (filled by closure)
 	// Late: a raw-slot access whose key is a parameter of the enclosing (helper) function;
 	// the region is resolved by closure() once the caller's argument is substituted
-	Late bool
-	Recv *Term
+	Late  bool
+	Recv  *Term
+	Inner ssa.Instruction // own(): the real site inside a new helper (In is the caller's call)
 }
 
 func (e Effect) String() string {
@@ -180,6 +181,18 @@ func (p *Prog) effects(fn *ssa.Function) *Summary {
 		}
 	}
 	// store values must not escape the recognised idioms
+	for _, prm := range fn.Params {
+		if !isKVStoreType(prm.Type()) {
+			continue
+		}
+		if refs := prm.Referrers(); refs != nil {
+			for _, r := range *refs {
+				if why := p.storeUseOK(prm, r); why != "" {
+					add(Effect{Kind: "ESCAPE", Region: why, In: r})
+				}
+			}
+		}
+	}
 	for _, b := range fn.Blocks {
 		for _, in := range b.Instrs {
 			v, ok := in.(ssa.Value)
@@ -251,6 +264,12 @@ func (p *Prog) storeCallUse(v ssa.Value, c *ssa.CallCommon) string {
 			return ""
 		}
 	}
+	if p.newHelper(callee) {
+		// handed to a new helper: the helper's use of its parameter is judged by these same
+		// rules (effects() also walks store-typed parameters), and its accesses are resolved
+		// with this argument when the effect closure substitutes it
+		return ""
+	}
 	return "store passed to " + funcName(callee)
 }
 
@@ -276,8 +295,8 @@ func (p *Prog) classifyCall(x *TX, s *Summary, in ssa.Instruction, c *ssa.CallCo
 				}
 				region, ok := p.regionOf(recv, key)
 				late := false
-				if !ok && isAdapterTerm(recv) && key != nil && key.hasParam() {
-					region, ok, late = "raw:?"+key.String(), true, true
+				if !ok && (recv.hasParam() || (isAdapterTerm(recv) && key != nil && key.hasParam())) && p.newHelper(x.fn) {
+					region, ok, late = "late:"+recv.String(), true, true
 				}
 				if !ok {
 					add(Effect{Kind: "ESCAPE", Region: "unresolved store region for " + recv.String(), In: in})
@@ -345,11 +364,15 @@ func (p *Prog) classifyCall(x *TX, s *Summary, in ssa.Instruction, c *ssa.CallCo
 				key = arg(1)
 			}
 			region, ok := p.regionOf(recv, key)
+			late := false
+			if !ok && recv.hasParam() && p.newHelper(x.fn) {
+				region, ok, late = "late:"+recv.String(), true, true
+			}
 			if !ok {
 				add(Effect{Kind: "ESCAPE", Region: "unresolved store region for " + recv.String(), In: in})
 				return
 			}
-			e := Effect{Kind: kind, Region: region, Key: key, In: in}
+			e := Effect{Kind: kind, Region: region, Key: key, In: in, Late: late, Recv: recv}
 			if kind == "W" {
 				e.Val = arg(2)
 			}
@@ -363,11 +386,15 @@ func (p *Prog) classifyCall(x *TX, s *Summary, in ssa.Instruction, c *ssa.CallCo
 	case "query.Paginate", "query.FilteredPaginate":
 		recv := arg(0)
 		region, ok := p.regionOf(recv, nil)
+		late := false
+		if !ok && recv.hasParam() && p.newHelper(x.fn) {
+			region, ok, late = "late:"+recv.String(), true, true
+		}
 		if !ok {
 			add(Effect{Kind: "ESCAPE", Region: "unresolved store region for " + recv.String(), In: in})
 			return
 		}
-		add(Effect{Kind: "PAGE", Region: region, In: in})
+		add(Effect{Kind: "PAGE", Region: region, In: in, Late: late, Recv: recv})
 		return
 	case "(sdk.Context).KVStore", "(sdk.Context).MultiStore", "(sdk.Context).TransientStore", "(sdk.Context).WithMultiStore":
 		add(Effect{Kind: "FORBIDDEN", Region: name, In: in})
@@ -516,13 +543,18 @@ func (p *Prog) closure(fn *ssa.Function) []Effect {
 				ne.Key = substTerm(e.Key, env)
 				ne.Val = substTerm(e.Val, env)
 				if ne.Late {
+					ne.Recv = substTerm(e.Recv, env)
 					if region, ok := p.regionOf(ne.Recv, ne.Key); ok {
 						ne.Region, ne.Late = region, false
 					}
 				}
 			}
 			if ne.Late {
-				ne = Effect{Kind: "ESCAPE", Region: "unresolved store region for " + ne.Recv.String() + " key " + ne.Key.String(), In: e.In, Fn: e.Fn}
+				ks := ""
+				if ne.Key != nil {
+					ks = " key " + ne.Key.String()
+				}
+				ne = Effect{Kind: "ESCAPE", Region: "unresolved store region for " + ne.Recv.String() + ks, In: e.In, Fn: e.Fn}
 			}
 			ne.Chain = append(append([]string(nil), chain...), funcName(f))
 			out = append(out, ne)
@@ -546,6 +578,69 @@ func (p *Prog) closure(fn *ssa.Function) []Effect {
 		}
 	}
 	visit(fn, nil, nil, 0)
+	return out
+}
+
+// own returns the effects a KNOWN function performs itself: its direct effects plus those
+// of the NEW helpers it calls (transitively through new helpers only), rewritten into its
+// frame and anchored at its own call instruction (Inner keeps the real site). A new helper
+// has no effects of its own in this sense: they belong to whoever calls it.
+func (p *Prog) own(fn *ssa.Function) []Effect {
+	if p.newHelper(fn) {
+		return nil
+	}
+	return p.ownInner(fn)
+}
+
+// ownInner: own() without the "a new helper owns nothing" convention (for rules that
+// judge a new helper in its own right).
+func (p *Prog) ownInner(fn *ssa.Function) []Effect {
+	var out []Effect
+	for _, e := range p.effects(fn).direct {
+		out = append(out, e)
+	}
+	var visit func(f *ssa.Function, env []*Term, anchor *ssa.Call, depth int, stack map[*ssa.Function]bool)
+	visit = func(f *ssa.Function, env []*Term, anchor *ssa.Call, depth int, stack map[*ssa.Function]bool) {
+		if depth > 6 || stack[f] {
+			return
+		}
+		stack[f] = true
+		defer delete(stack, f)
+		s := p.effects(f)
+		for _, e := range s.direct {
+			ne := e
+			ne.Key = substTerm(e.Key, env)
+			ne.Val = substTerm(e.Val, env)
+			if ne.Late {
+				ne.Recv = substTerm(e.Recv, env)
+				if region, ok := p.regionOf(ne.Recv, ne.Key); ok {
+					ne.Region, ne.Late = region, false
+				} else if !p.newHelper(fn) {
+					ne.Kind, ne.Region = "ESCAPE", "unresolved store region for "+ne.Recv.String()
+				}
+			}
+			ne.Inner = e.In
+			ne.In = anchor
+			ne.Fn = fn
+			out = append(out, ne)
+		}
+		for _, ce := range s.calls {
+			if !p.newHelper(ce.Callee) {
+				continue
+			}
+			nenv := make([]*Term, len(ce.Args))
+			for i, a := range ce.Args {
+				nenv[i] = substTerm(a, env)
+			}
+			visit(ce.Callee, nenv, anchor, depth+1, stack)
+		}
+	}
+	for _, ce := range p.effects(fn).calls {
+		if ce.In == nil || !p.newHelper(ce.Callee) {
+			continue
+		}
+		visit(ce.Callee, ce.Args, ce.In, 1, map[*ssa.Function]bool{fn: true})
+	}
 	return out
 }
 
@@ -600,12 +695,46 @@ func (p *Prog) effectSitesIn(fn *ssa.Function, kinds ...string) []ssa.Instructio
 // callersOf returns the module functions with a static call (or closure
 // creation) targeting fn, with the call instructions.
 func (p *Prog) callersOf(target *ssa.Function) map[*ssa.Function][]*ssa.Call {
+	return p.callersOfDepth(target, 0)
+}
+
+// callersOfDepth: direct callers; a caller that is a NEW helper (and the target is not)
+// is replaced by its own callers — a call made by a new helper on behalf of a known
+// function counts as that function's call, at its call of the helper.
+func (p *Prog) callersOfDepth(target *ssa.Function, depth int) map[*ssa.Function][]*ssa.Call {
 	out := map[*ssa.Function][]*ssa.Call{}
 	for _, fn := range p.Funcs {
 		for _, ce := range p.effects(fn).calls {
-			if ce.Callee == target && ce.In != nil {
-				out[fn] = append(out[fn], ce.In)
+			if ce.Callee != target || ce.In == nil {
+				continue
 			}
+			if p.newHelper(fn) && !p.newHelper(target) && depth < 4 {
+				for up, calls := range p.callersOfLifted(fn, depth+1) {
+					out[up] = append(out[up], calls...)
+				}
+				continue
+			}
+			out[fn] = append(out[fn], ce.In)
+		}
+	}
+	return out
+}
+
+// callersOfLifted: known functions that reach helper h through new helpers only.
+func (p *Prog) callersOfLifted(h *ssa.Function, depth int) map[*ssa.Function][]*ssa.Call {
+	out := map[*ssa.Function][]*ssa.Call{}
+	for _, fn := range p.Funcs {
+		for _, ce := range p.effects(fn).calls {
+			if ce.Callee != h || ce.In == nil {
+				continue
+			}
+			if p.newHelper(fn) && depth < 4 {
+				for up, calls := range p.callersOfLifted(fn, depth+1) {
+					out[up] = append(out[up], calls...)
+				}
+				continue
+			}
+			out[fn] = append(out[fn], ce.In)
 		}
 	}
 	return out
